@@ -4,6 +4,7 @@
    crafted files, not proved. *)
 From Coq Require Import ZArith List Bool.
 Require Import V.Lib.Val V.Lib.Result V.Dex.LebModel V.Misc.TermModel V.Misc.TermProofs V.Dex.StringsModel.
+Require V.Axml.AxmlModel V.Axml.AxmlTerm.
 Import ListNotations.
 Open Scope Z_scope.
 
@@ -23,6 +24,14 @@ Proof. exact hidden_api_ends. Qed.
 Print Assumptions C35_hidden_api_loops_end.
 
 (* an accepted chunk header makes the chunk loop of AXMLParser advance: the chunk ends at least 8 bytes after its start *)
+(* the whole binary XML parser as modelled (C26: AXMLParser's chunk loop with its resynchronisation, the resource map, the
+   namespace stack, attribute records; AXMLPrinter's event loop; every string pool lookup, UTF-8 and UTF-16): for EVERY byte
+   string it ends with a tree, no tree, or an error - never by running out of its fuel, which is the length of the input + 1
+   for each of the two loops: a chunk whose header is accepted lies at least eight bytes further on *)
+Theorem C35_binary_xml_parsing_ends : forall sysattr buf, AxmlModel.parse_axml sysattr buf <> Err OutOfFuel.
+Proof. exact AxmlTerm.parse_axml_ends. Qed.
+Print Assumptions C35_binary_xml_parsing_ends.
+
 Theorem C35_accepted_header_advances_the_chunk_loop : forall buf start expected ty hs sz st pos,
   arsc_header buf start expected = Ok [ty; hs; sz; st; pos] -> st = start /\ start + 8 <= st + sz.
 Proof. exact arsc_header_progress. Qed.
